@@ -272,7 +272,7 @@ Proof.
   inv_res H; norm_gets; subst.
   exists v, r0. repeat split; auto.
   - apply Bool.negb_true_iff. exact Hg.
-  - rewrite ops_put_actor, ops_put_op, upd_same. reflexivity.
+  - cbn. rewrite upd_same. reflexivity.
 Qed.
 
 Lemma submit_spec s a o p w weak k sl htx hftx tm s' :
@@ -283,12 +283,12 @@ Lemma submit_spec s a o p w weak k sl htx hftx tm s' :
       exists x', actors s' a = Some x' /\ a_mb x' = mb_enq w p (a_mb x))).
 Proof.
   intros Ho H. unfold submit in H. inv_res H; norm_gets; subst s'.
-  - eexists _, v. rewrite ops_put_op, upd_same. repeat split; eauto. left. eexists. reflexivity.
-  - eexists _, v. rewrite ops_put_op, upd_same. repeat split; eauto. left. eexists. reflexivity.
-  - eexists _, v. rewrite ops_put_actor, ops_put_op, upd_same. repeat split; eauto.
+  - eexists _, v. cbn [add_pend set_pending ops put_op set_ops]. rewrite upd_same. repeat split; eauto. left. eexists. reflexivity.
+  - eexists _, v. cbn [add_pend set_pending ops put_op set_ops]. rewrite upd_same. repeat split; eauto. left. eexists. reflexivity.
+  - eexists _, v. cbn [add_pend set_pending ops put_op set_ops put_actor set_actors]. rewrite upd_same. repeat split; eauto.
     right. repeat split; auto.
     + apply Bool.negb_false_iff. exact Hb0.
-    + eexists. rewrite actors_put_actor, upd_same. split; [reflexivity|]. destruct w; reflexivity.
+    + eexists. cbn [add_pend set_pending actors put_actor set_actors]. rewrite upd_same. split; [reflexivity|]. destruct w; reflexivity.
 Qed.
 
 (** ** one step of the simulation *)
